@@ -10,7 +10,9 @@ COMMON_ASSUMPTIONS = [
     "class_declaration / method / add_function objects contribute; class "
     "tokens have no C++ inheritance between them",
     "legal inputs only (DESIGN.md 3.3): anything outside them is INVALID, "
-    "never a violation",
+    "never a violation; in half of the runs objects whose dynamic class is "
+    "a registered abstract class are legal arguments (a call from the "
+    "constructor or destructor of an abstract base)",
     "clang 14 AddressSanitizer + UndefinedBehaviorSanitizer on the real code",
 ]
 
@@ -135,16 +137,16 @@ PROPS = {
                     "same registrations = same catalogs in the same order; "
                     "nothing is claimed when the consumer's static "
                     "initialisation order differs from the generator's",
-                    "known finding K1 (next slots are not installed by "
-                    "decode) is tolerated run by run and reported as "
-                    "KNOWN-FINDING; definitions then do not call next after "
-                    "decode",
+                    "finding K1 (next slots were not installed by decode) "
+                    "was repaired in /repo (6b14f6f): a null next after "
+                    "decode is an ordinary violation, and definitions call "
+                    "next after a decode",
                     "engine tw under C13: the last update of a typed-world "
                     "history is encoded, every registration object destroyed "
                     "and constructed again in the same order, the text "
                     "decoded, and every tuple of every loaded method called "
-                    "through the real thunks (definitions that call next are "
-                    "left out, K1)",
+                    "through the real thunks (definitions that call next "
+                    "included)",
                     TW_NOTE]),
     "C14": spec([reg("C14", 40000, 45, 2000000, 780),
                  reg("tw2", 4000, 25, 200000, 200)],
